@@ -509,7 +509,7 @@ func runC13Streams(run *Run, seed int64, cfgI int, id string, full bool) (out []
 
 func TestC13(t *testing.T) {
 	run := NewRun(t, "C13", "fault_enumeration",
-		"One real node (with a 3-member view) per configuration {label none/short} x {encryption none/v1/v0} x {verify incoming on/off} x compression. Packet path: genuine messages of every type (with and without checksum header), each mutated by every truncation, byte positions x {invert, 0x00, 0xff, +1}, every single bit for items <= 256 bytes, a 0..255 type-byte sweep, doubled/empty/truncated label headers, random buffers; structurally hostile plaintexts correctly wrapped (lying compound tables, 60-deep nesting, compress-in-compound-in-compress, bad algorithms, msgpack headers announcing 2^32-1 elements, wrong-path types) and a 41 MiB decompression bomb. Stream path: every cut point of genuine push/pull (join and not), user message and ping (with FIN or stalled), single-bit flips, declared sizes beyond each cap (nodes > 2^20 or < 0, user state / user message > 20 MiB or < 0, encrypted length > 20 MiB) followed by 64 KiB of filler, a decompression bomb, 140 concurrent stalled push/pulls, and a packet flood with the delegate stuck. Monitors: the process must survive (each input is journalled before injection; a crash names the input); inputs in which the oracle-side codec finds no well-formed message leave the digest (records, members, events, delegate calls, queue, health) unchanged; genuine pings on both listeners keep being answered; after TCPTimeout no inbound connection, pending-probe record, push/pull counter or goroutine is left; bytes consumed after an over-cap header stay within one 4 KiB buffer. Cell = (path, mutation class, config, deepest layer reached).")
+		"One real node (with a 3-member view) per configuration {label none/short} x {encryption none/v1/v0} x {verify incoming on/off} x compression. Packet path: genuine messages of every type (with and without checksum header), each mutated by every truncation, byte positions x {invert, 0x00, 0xff, +1}, every single bit for items <= 256 bytes, a 0..255 type-byte sweep, doubled/empty/truncated label headers, random buffers; structurally hostile plaintexts correctly wrapped (lying compound tables, 60-deep nesting, compress-in-compound-in-compress, bad algorithms, msgpack headers announcing 2^32-1 elements, wrong-path types) and a 41 MiB decompression bomb. Stream path: every cut point of genuine push/pull (join and not), user message and ping (with FIN or stalled), single-bit flips, declared sizes beyond each cap (nodes > 2^20 or < 0, user state / user message > 20 MiB or < 0, encrypted length > 20 MiB) followed by 64 KiB of filler, a decompression bomb, 140 concurrent stalled push/pulls, and a packet flood with the delegate stuck. Monitors: the process must survive (each input is journalled before injection; a crash names the input); inputs in which the oracle-side codec finds no well-formed message leave the digest (records, members, events, delegate calls, queue, health) unchanged; genuine pings on both listeners keep being answered; after TCPTimeout no inbound connection, pending-probe record, push/pull counter or goroutine is left; bytes consumed after an over-cap header stay within one 4 KiB buffer. Part 3: well-formed but odd membership data (version vectors of 0-12 entries, addresses of 0-17 bytes, states outside the enum, empty names, the receiver's own name, port 0, maximal incarnations, 512/513-byte metadata) by push/pull (join and not) and as gossip, against victims that are alone / have peers / have left (alone or with peers) and have the merge and/or alive delegate configured: survival, continued service of a genuine push/pull, no leaked connection or counter. Cell = (path, mutation class, config, deepest layer reached).")
 	defer run.Finish()
 	run.Assume("an input is 'undecodable' when the oracle-side codec (label, authentication, CRC, compound/compress nesting, msgpack) finds no complete well-formed message in it; inputs that do contain one may have any C01-legal effect and are not judged here")
 	full := run.Thorough()
@@ -538,6 +538,32 @@ func TestC13(t *testing.T) {
 				}
 			}
 		}
+	}
+	// part 3: well-formed but odd membership data against victims in every lifecycle phase
+	oddK := 0
+	for rep := 0; rep < run.Pick(1, 24); rep++ {
+		for _, phase := range []string{"alone", "with-peers", "left-alone", "left-with-peers"} {
+			for _, dg := range []string{"none", "merge", "alive", "merge+alive"} {
+				oddK++
+				id := fmt.Sprintf("odd/%s/%s/rep%d", phase, dg, rep)
+				if !run.Mine(oddK) || !run.Want(id) {
+					continue
+				}
+				sc := c13OddScn{Phase: phase, Delegates: dg, Enc: oddK%3 == 0, Label: []string{"", "lab"}[oddK%2]}
+				run.Journal(id, "start")
+				var res []*c01Result
+				err := Bubble(t, func() { res = runC13Odd(run, run.Seed()*29+int64(oddK)+int64(rep)*1019, sc, id, run.Pick(96, 400)) })
+				if err != nil {
+					res = append(res, &c01Result{"C13/bubble", err.Error()})
+				}
+				for _, r := range res {
+					run.Violation(id, r.Key, r.What, sc)
+				}
+			}
+		}
+	}
+	if !run.Replaying() {
+		run.Require("odd|pushpull-join=true|left-alone|merge", "odd|pushpull-join=true|alone|merge+alive", "odd|gossip|with-peers|alive", "odd|pushpull-join=false|left-with-peers|none")
 	}
 	run.Sample(map[string]any{"cfg": c13Cfgs[0].String(), "example_inputs": []string{"every truncation of a sealed ping", "compound announcing 255 parts with no table", "push/pull header declaring 2^20+1 nodes + 64 KiB filler"}})
 	run.Complete()
